@@ -83,6 +83,13 @@ def run(ctx, rep):
     rep.guarded("R05-VORDER", lambda: r_vorder(sh, rep))
     rep.guarded("R05-MEASURE", lambda: r_measure(sh, rep))
     from . import c04
+    rep.rule("R19-COST", "every evaluation entry point reports cost = (the budget its machine was created with) - (what the machine has left) (shared with C19)", floor=6)
+
+    def cost():
+        from . import c19
+        c19.r_cost(ctx.shape, rep)
+
+    rep.guarded("R19-COST", cost)
     rep.rule("R05-BIGINTSITE", "no size measure decodes Data big integers by hand (shared with C04)", floor=2)
     rep.guarded("R05-BIGINTSITE", lambda: c04.r_bigintsites(sh, rep, "R05-BIGINTSITE"))
     rep.guarded("R05-STEP", lambda: r_step(sh, rep))
